@@ -291,11 +291,18 @@ def s8_reader_not_wider(chk: Check, proj: Project, m) -> None:
            f"`{names[0]}` also matches {wit2!r}: the end tag of another (custom) element whose name merely starts with head / body is taken for the document's, and the CSS / JS is inserted there",
            detail={"reference": ref2, "witness": wit2})
     # ... and ALL of them as HTML writes them: the tag name may be followed by whitespace before `>`
-    need = r"</(?:head|body)[ \t\n\r\f]*>"
+    need = r"(?i)</(?:head|body)[ \t\n\r\f]*>"  # HTML tag names are case-insensitive (F53)
     ok3, wit3 = included(Lang(need.encode() if isinstance(pat2, bytes) else need, 0), Lang(pat2, fl2))
     chk.paths += 1
+    import re as _re2
+    if fl2 & _re2.IGNORECASE:
+        cls_ = [st for st in stmts(scan) if isinstance(st, ast.Assign) and isinstance(st.value, (ast.Subscript, ast.Call)) and "match" in norm(st.value) and any(isinstance(c_, ast.Compare) and norm(c_.left) == norm(st.targets[0]) and isinstance(c_.comparators[0], ast.Constant) and c_.comparators[0].value in ("head", "body") for c_ in ast.walk(scan))]
+        okl = bool(cls_) and all(".lower()" in norm(st.value) or ".casefold()" in norm(st.value) for st in cls_)
+        chk.ob("S8", "dependencies:end-tag-classification-ignores-case-too", m.loc(cls_[0]) if cls_ else m.loc(scan), okl if cls_ else None,
+               "the matched tag name is lower-cased before it is compared with 'head' / 'body'" if okl else
+               f"`{short(cls_[0]) if cls_ else '?'}` compares the matched text as written with 'head' / 'body' although the regex ignores case: `</HEAD>` matches and then raises ValueError('Unexpected tag name')")
     chk.ob("S8", "dependencies:end-tag-regex:matches-every-head-body-end-tag", m.loc(node2), ok3,
-           f"`{names[0]}` matches `</head>` / `</body>` with any whitespace before `>` (the HTML syntax of an end tag)" if ok3 else
+           f"`{names[0]}` matches `</head>` / `</body>` in any letter case and with any whitespace before `>` (the HTML syntax of an end tag)" if ok3 else
            f"`{names[0]}` does not match {wit3!r}, a valid end tag: on such a page no insertion point is found, the markers are stripped and the collected JS / CSS is silently dropped",
            detail={"required": need, "witness": wit3})
 
